@@ -5,7 +5,37 @@ use chiritori::chiritori::{
     clean, list, list_all, ChiritoriConfiguration, ListFormat, RemovalMarkerConfiguration,
     TimeLimitedConfiguration,
 };
+#[cfg(feature = "hooks")]
 pub use chiritori::verif::Event;
+
+/// Fallback when the repository does not build with its `verif-hooks` feature (e.g. a change in
+/// /repo touched code that a hook call site refers to): the harness is then built without hooks,
+/// no event is ever observed and every monitor falls back to what it sees at the public API.
+#[cfg(not(feature = "hooks"))]
+#[derive(Debug, Clone, PartialEq)]
+pub enum Event {
+    Decision {
+        open_start: usize,
+        close_end: usize,
+        name: String,
+        is_skip: bool,
+        evaluator: Option<bool>,
+        outcome: Option<((usize, usize), Option<(usize, usize)>, bool)>,
+    },
+    CleanMarkers {
+        markers: Vec<(usize, usize, Option<usize>)>,
+        source_len: usize,
+        removed_len: usize,
+    },
+    RemovedPos { positions: Vec<(usize, Option<usize>)> },
+    FormatRanges { ranges: Vec<(usize, usize)> },
+    ListMarkers {
+        all: bool,
+        markers: Vec<(usize, usize, Option<usize>, bool)>,
+    },
+}
+
+pub const HOOKS_ENABLED: bool = cfg!(feature = "hooks");
 use std::cell::RefCell;
 use std::collections::HashSet;
 use std::panic;
@@ -136,9 +166,13 @@ fn payload_msg(e: Box<dyn std::any::Any + Send>) -> String {
 
 /// Run `f` under catch_unwind with the event log on. Returns value + events, or panic info.
 pub fn guarded<T, F: FnOnce() -> T + panic::UnwindSafe>(f: F) -> Result<(T, Vec<Event>), PanicInfo> {
+    #[cfg(feature = "hooks")]
     chiritori::verif::start();
     let r = panic::catch_unwind(f);
+    #[cfg(feature = "hooks")]
     let ev = chiritori::verif::take();
+    #[cfg(not(feature = "hooks"))]
+    let ev: Vec<Event> = vec![];
     match r {
         Ok(v) => Ok((v, ev)),
         Err(e) => Err(PanicInfo {
